@@ -105,6 +105,11 @@ func runWithdraw(ctx *action.Context, tx action.RawTx) (bool, action.Response) {
 		return helpers.LogAndReturnFalse(ctx.Logger, action.ErrUnserializable, withdraw.Tags(), err)
 	}
 
+	// the amount must be a non-negative amount of a known currency
+	if !withdraw.WithdrawAmount.IsValid(ctx.Currencies) {
+		return helpers.LogAndReturnFalse(ctx.Logger, action.ErrInvalidAmount, withdraw.Tags(), errors.New("invalid withdraw amount"))
+	}
+
 	withDrawCoin := withdraw.WithdrawAmount.ToCoinWithBase(ctx.Currencies)
 	err = ctx.RewardMasterStore.RewardCm.WithdrawRewards(withdraw.ValidatorAddress, withDrawCoin.Amount)
 	if err != nil {
